@@ -23,7 +23,7 @@ BUFFERS = [16, 24, 32, 64, 100, 120, 128, 248, 255, 256, 512, 108, 236, 44, 492]
 
 RELIABLE_FAULTS = ["req_loss", "rep_loss", "rep_delay", "rep_dup",
                    "retryable_rc", "slow_machine", "partition",
-                   "transient_busy", "rep_batch"]
+                   "transient_busy", "rep_batch", "spurious_wakeup"]
 
 
 def rigcall(w, allowed, fn, *args, **kwargs):
